@@ -26,6 +26,7 @@ import (
 	"github.com/go-task/task/v3/internal/goext"
 	"github.com/go-task/task/v3/verifharness/common"
 	cg "github.com/go-task/task/v3/verifharness/coqgen"
+	"mvdan.cc/sh/v3/syntax"
 )
 
 // Case is the replayable input of one case plus what was observed.
@@ -65,6 +66,7 @@ var sigSite = map[string]string{
 	"panic:taskfile.NewGitNode:index-out-of-range":                    "SGitSplit",
 	"panic:taskfile/ast.(*Task).WildcardMatch:regexp-compile":         "SWildcard",
 	"panic:internal/deepcopy.TraverseStringsFunc:reflect-unexported":  "STraverseStruct",
+	"panic:internal/execext.ExpandLiteral:index-out-of-range":         "SExpandLiteral",
 	"panic:internal/deepcopy.OrderedMap:nil-deref":                    "SMatrixNilMap",
 }
 
@@ -147,6 +149,21 @@ func deadlockSummary(stack string) string {
 	return strings.Join(keep, "\n\n")
 }
 
+// shellWords: what execext.ExpandLiteral's parser makes of the string (same escaping):
+// the number of words, or -1 when the parser rejects it.
+func shellWords(s string) int {
+	s = filepath.ToSlash(s)
+	for _, c := range []string{" ", "&", "(", ")"} {
+		s = strings.ReplaceAll(s, c, `\`+c)
+	}
+	n := 0
+	err := syntax.NewParser().Words(strings.NewReader(s), func(*syntax.Word) bool { n++; return true })
+	if err != nil {
+		return -1
+	}
+	return n
+}
+
 func remoteLooking(s string) bool { return strings.Contains(s, "://") || strings.HasPrefix(s, "git") }
 
 func giturlCoq(s string) (string, bool) {
@@ -193,7 +210,7 @@ func oracleLists(trees map[string]*Y) string {
 		}
 	}
 	sort.Strings(all)
-	var dur, ver, oss, arch, wcBad, wcQBad, gu []string
+	var dur, ver, oss, arch, wcBad, wcQBad, gu, w0, wErr []string
 	for _, s := range all {
 		if _, err := time.ParseDuration(s); err == nil {
 			dur = append(dur, CoqStr(s))
@@ -213,14 +230,22 @@ func oracleLists(trees map[string]*Y) string {
 		if _, err := regexp.Compile(wcPattern(s, true)); err != nil {
 			wcQBad = append(wcQBad, CoqStr(s))
 		}
+		if s != "" {
+			switch shellWords(s) {
+			case 0:
+				w0 = append(w0, CoqStr(s))
+			case -1:
+				wErr = append(wErr, CoqStr(s))
+			}
+		}
 		if remoteLooking(s) {
 			if c, ok := giturlCoq(s); ok {
 				gu = append(gu, "("+CoqStr(s)+", "+c+")")
 			}
 		}
 	}
-	return fmt.Sprintf("tc_dur := %s; tc_ver := %s; tc_os := %s; tc_arch := %s; tc_wc_bad := %s; tc_wc_qbad := %s; tc_giturl := %s",
-		cg.List(dur), cg.List(ver), cg.List(oss), cg.List(arch), cg.List(wcBad), cg.List(wcQBad), cg.List(gu))
+	return fmt.Sprintf("tc_dur := %s; tc_ver := %s; tc_os := %s; tc_arch := %s; tc_wc_bad := %s; tc_wc_qbad := %s; tc_giturl := %s; tc_words0 := %s; tc_words_err := %s",
+		cg.List(dur), cg.List(ver), cg.List(oss), cg.List(arch), cg.List(wcBad), cg.List(wcQBad), cg.List(gu), cg.List(w0), cg.List(wErr))
 }
 
 func treeCaseCoq(c *Case) string {
@@ -407,6 +432,76 @@ func generate(o *common.Opts, obs *common.Obs) []Doc {
 					extra[i].NoRun = true
 					extra[i].DeadlineS = 10 // a handful of tiny files: reading them takes milliseconds
 				}
+				docs = append(docs, extra[i])
+			}
+		}
+	}
+
+	// optional includes whose Taskfile exists but cannot be used, and strings for ExpandLiteral / ExpandFields
+	{
+		var extra []Doc
+		optVariants := []struct {
+			name string
+			file string
+			kvs  []KV
+		}{
+			{"plain", "extra.yml", nil},
+			{"subdir", "./sub/extra.yml", nil},
+			{"internal", "extra.yml", []KV{P("internal", Bool(true))}},
+			{"flatten", "extra.yml", []KV{P("flatten", Bool(true))}},
+			{"excludes", "extra.yml", []KV{P("excludes", Seq(Str("t"))), P("aliases", Seq(Str("ex")))}},
+		}
+		mt := malformedTrees()
+		for vi, ov := range optVariants {
+			for _, name := range common.SortedKeys(mt) {
+				file := strings.TrimPrefix(ov.file, "./")
+				trees := map[string]*Y{"Taskfile.yml": optionalIncludeRoot(ov.file, ov.kvs...), file: mt[name]}
+				if name == "missing-inner" && vi%2 == 1 {
+					continue
+				}
+				extra = append(extra, renderTreeDoc("inc-optional:"+ov.name+":"+name, trees, []string{"nonexist"}))
+			}
+			mb := malformedBytes()
+			for _, name := range common.SortedKeys(mb) {
+				file := strings.TrimPrefix(ov.file, "./")
+				root := optionalIncludeRoot(ov.file, ov.kvs...)
+				extra = append(extra, Doc{Kind: "bytes", Label: "inc-optional:" + ov.name + ":" + name,
+					Files: map[string][]byte{"Taskfile.yml": []byte(root.Doc()), file: []byte(mb[name])}, Requested: []string{"root", "nonexist"}})
+			}
+		}
+		one := func(label string, top ...KV) {
+			root := Map(append([]KV{P("version", Str("3"))}, top...)...)
+			extra = append(extra, renderTreeDoc(label, map[string]*Y{"Taskfile.yml": root, "inc1.yml": incTree(1)}, []string{"t", "nonexist"}))
+		}
+		tsk := func(fields ...KV) KV {
+			return P("tasks", Map(P("t", Map(append(fields, P("cmds", Seq(Str("echo hi"))))...))))
+		}
+		for _, h := range hostilePaths {
+			one("expand:task-dir", tsk(P("dir", Str(h))))
+			one("expand:include-location", P("includes", Map(P("sub", Str(h)))), tsk())
+		}
+		for i, h := range hostilePaths {
+			switch i % 4 {
+			case 0:
+				one("expand:include-dir", P("includes", Map(P("sub", Map(P("taskfile", Str("inc1.yml")), P("dir", Str(h)))))), tsk())
+			case 1:
+				one("expand:dotenv", P("dotenv", Seq(Str(h))), tsk(P("dotenv", Seq(Str(h)))))
+			case 2:
+				one("expand:glob", tsk(P("sources", Seq(Str(h))), P("generates", Seq(Str(h), Map(P("exclude", Str(h)))))))
+			default:
+				one("expand:optional-include", P("includes", Map(P("sub", Map(P("taskfile", Str(h)), P("optional", Bool(true)), P("dir", Str(h)))))), tsk())
+			}
+		}
+		// the same through template variables: global, task level, and from the command line (OUT=#1)
+		for _, h := range []string{"#1", "\t", "# x", "'q", "$X"} {
+			one("expand:templated-dir-global", P("vars", Map(P("OUT", Str(h)))), tsk(P("dir", Str("{{.OUT}}"))))
+			one("expand:templated-dir-task", tsk(P("vars", Map(P("OUT", Str(h)))), P("dir", Str("{{.OUT}}"))))
+			one("expand:templated-include", P("vars", Map(P("LOC", Str(h)))), P("includes", Map(P("sub", Map(P("taskfile", Str("{{.LOC}}")), P("dir", Str("{{.LOC}}")))))), tsk())
+		}
+		one("expand:templated-dir-cli", tsk(P("dir", Str("{{.OUT}}"))))
+		one("expand:templated-dir-default", tsk(P("dir", Str("{{.OUT | default \"#none\"}}"))))
+		for i := range extra {
+			if shard < 8 && i%8 == shard {
 				docs = append(docs, extra[i])
 			}
 		}
@@ -609,7 +704,7 @@ func Main(args []string) {
 		}
 		// the CLI on a sample (always on the directed byte documents)
 		isReader := strings.HasPrefix(d.Label, "reader:")
-		if bin != "" && (d.Kind == "tree" || d.Kind == "bytes") && (len(d.Conc) > 0 || isReader || strings.HasPrefix(d.Label, "inc-options:") || i%cliEvery == 0 || (d.Kind == "bytes" && !strings.HasPrefix(d.Label, "rand:")) || o.Replay != "") {
+		if bin != "" && (d.Kind == "tree" || d.Kind == "bytes") && (len(d.Conc) > 0 || isReader || strings.HasPrefix(d.Label, "inc-options:") || strings.HasPrefix(d.Label, "inc-optional:") || strings.HasPrefix(d.Label, "expand:templated") || (strings.HasPrefix(d.Label, "expand:") && i%3 == 0) || i%cliEvery == 0 || (d.Kind == "bytes" && !strings.HasPrefix(d.Label, "rand:")) || o.Replay != "") {
 			name := "nonexist"
 			if len(d.Requested) > 0 {
 				name = d.Requested[0]
@@ -626,8 +721,10 @@ func Main(args []string) {
 			}
 			if isReader {
 				variants = [][]string{{"--list-all"}}
-			} else if strings.HasPrefix(d.Label, "inc-options:") {
+			} else if strings.HasPrefix(d.Label, "inc-options:") || strings.HasPrefix(d.Label, "inc-optional:") {
 				variants = [][]string{{"--dry", "root"}}
+			} else if strings.HasPrefix(d.Label, "expand:") {
+				variants = [][]string{{"--dry", "t", "OUT=#1"}, {"--list-all"}}
 			}
 			if len(d.Conc) > 0 {
 				variants = [][]string{{"--dry", "all"}, append([]string{"--parallel", "--dry"}, d.Conc...), {"all"}, {"--list-all"}}
